@@ -29,6 +29,7 @@ extern const int g_nprops;
 // known findings (loaded from /verif/known_findings.json by the driver)
 bool kfListed(const std::string &id);
 void kfLoad(const std::string &path);
+std::string rootDir(); // the directory that holds check, fixtures/ and known_findings.json (from the location of the executable)
 std::string kfWhat(const std::string &id);
 
 } // namespace vf
